@@ -21,6 +21,9 @@ type ModelOpts struct {
 	MinDefs     int
 	MaxDefs     int
 	NoDefaults  bool
+	// Deep lifts the Core restriction of the schema generator (exploration of the
+	// regions where listed known findings live).
+	Deep bool
 }
 
 // ModelSpec draws a document whose subject is its definitions.
@@ -30,7 +33,7 @@ func ModelSpec(t *rapid.T, o ModelOpts) J {
 	}
 	cfg := &SpecCfg{
 		Schema: Opts{Name: o.Name, MaxDepth: 3, AllOf: true, AddlProps: true, Defaults: !o.NoDefaults, Tuples: o.Tuples,
-			XNullable: true, ReadOnly: true, MinMaxProps: true, Formats: ModelFormats, Descr: true},
+			XNullable: true, ReadOnly: true, MinMaxProps: true, Formats: ModelFormats, Descr: true, Core: !o.Deep},
 		MinDefs: o.MinDefs, MaxDefs: o.MaxDefs, MinPaths: 1, MaxPaths: 1, MaxParams: 0, AcyclicRefs: true,
 		Methods: []string{"get"}, DefName: o.DefName,
 	}
